@@ -1332,7 +1332,7 @@ class TensorTerm(SplineTerm, MetaTermMixin):
         terms = []
         for term_info in info['terms']:
             terms.append(SplineTerm.build_from_info(term_info))
-        return cls(*terms, by=info.get('by', None))
+        return cls(*terms, by=info.get('by', None), verbose=info.get('verbose', False))
 
     @property
     def hasconstraint(self):
@@ -1711,7 +1711,7 @@ class TermList(Core, MetaTermMixin):
         terms = []
         for term_info in info['terms']:
             terms.append(Term.build_from_info(term_info))
-        return cls(*terms)
+        return cls(*terms, verbose=info.get('verbose', False))
 
     def compile(self, X, verbose=False):
         """method to validate and prepare data-dependent parameters
